@@ -508,3 +508,56 @@ func typeSwitched(prm *ssa.Parameter) bool {
 	}
 	return n >= 2
 }
+
+// ---------------------------------------------------------------- P-NO-LIBPARSE
+
+func init() {
+	register(&Rule{ID: "P-NO-LIBPARSE", Props: []string{"C04", "C16"}, Floor: 1,
+		Doc: "Who-may-call: the decoders of quoted identifiers and raw strings (and their helpers) never hand a piece of the literal to a general-purpose library parser (strconv.ParseInt/ParseUint/ParseFloat/Atoi/Unquote*, fmt.Sscan*): those accept spellings the grammar does not (a sign, an underscore, a base prefix, surrounding space), so an escape such as \\u+041 would be decoded instead of rejected. Hex digits are decoded by comparing characters (P-CHARCLASS).",
+		Run: rulePNoLibParse})
+}
+
+func rulePNoLibParse(p *Program, r *Reporter) {
+	lh := literalHelpers(p)
+	seen := map[*ssa.Function]bool{}
+	var fns []*ssa.Function
+	var add func(fn *ssa.Function)
+	add = func(fn *ssa.Function) {
+		if fn == nil || seen[fn] || fn.Pkg == nil || fn.Pkg.Pkg != p.Parser.Types {
+			return
+		}
+		seen[fn] = true
+		fns = append(fns, fn)
+		for _, c := range staticCallees(fn) {
+			if c.Signature.Recv() == nil {
+				add(c)
+			}
+		}
+	}
+	add(lh["quoted"])
+	add(lh["string"])
+	if len(fns) == 0 {
+		r.Unknown(token.NoPos, "literal decoders", "the decoders of quoted identifiers and raw strings were not found")
+		return
+	}
+	for _, fn := range fns {
+		name := p.FuncName(fn)
+		bad := false
+		for _, b := range fn.Blocks {
+			for _, in := range b.Instrs {
+				c, ok := in.(ssa.CallInstruction)
+				if !ok {
+					continue
+				}
+				n := calleeFullName(c.Common())
+				if strings.HasPrefix(n, "strconv.Parse") || n == "strconv.Atoi" || strings.HasPrefix(n, "strconv.Unquote") || strings.HasPrefix(n, "fmt.Sscan") || strings.HasPrefix(n, "fmt.Fscan") {
+					r.Bad(instrPos(in), name+" calls "+n, "a general-purpose parser decides what the literal means: it accepts signs, underscores, prefixes or spaces that the grammar's escape syntax does not")
+					bad = true
+				}
+			}
+		}
+		if !bad {
+			r.OK(fn.Pos(), name+" decodes by itself", "no library number/quote parser is applied to the literal's text")
+		}
+	}
+}
